@@ -214,3 +214,26 @@ META["C09"]["probes"] = [
 META["C08"]["secondary_measure"] = "distinct schedules reached = distinct sequences of (operation kind, actor(s), loader) ignoring documents, values and flags; exact union over all workers, per build"
 META["C09"]["secondary_measure"] = "distinct schedules reached = distinct sequences of (operation kind, actor(s), loader, kind of damage / injected system-call fault) ignoring documents, values and flags; exact union over all workers, per build"
 META["C19"]["secondary_measure"] = "distinct history shapes = distinct sequences of operation kinds (empty writes distinguished) ignoring arguments; exact union over all workers"
+
+# ---- wording updates after the last harness changes (kept separate so that the history above stays readable)
+_BIG = " Streams above 24 KiB (one payload of hundreds of KiB per sequence document) have their fault positions sampled: first/last 64, multiples of 4 KiB / 8 KiB / 64 KiB (-1, 0, +1) and 128 seeded positions."
+for _p in ("C11", "C13", "C14"):
+    META[_p]["rule"] += _BIG
+    META[_p]["exhaustive_dimensions"] = [d + " (streams up to 24 KiB)" for d in META[_p]["exhaustive_dimensions"]]
+META["C13"]["rule"] += " Kernel-level: scripted answers (short writes, EINTR, ENOSPC, EIO, 0) to the write(2) calls of the real BufWriter<File> inside store."
+META["C14"]["rule"] += " Source kinds: scripted source under std read_exact, BufReader (capacities incl. 0), and a source implementing the library's ReadNoStd directly."
+META["C19"]["rule"] += " The provided methods read_exact / write_all / read_to_end are in the alphabet (compared on success; state after a failed read_exact is unspecified by std and re-synchronised; an empty write_all is not executed); one history in sixteen has up to 400 operations."
+META["C12"]["rule"] += " No fault-free control is required: residue 0 is judged like every other; the value of an Ok result is compared with the read at a page-aligned address when that read succeeds."
+META["C10"]["rule"] += " Each path is judged against its own fault-free reference (full-copy / ε-copy); a path without one is skipped and counted."
+DOC_ASSUMPTIONS[0] = DOC_ASSUMPTIONS[0].replace("~68", "84")
+for _p in ("C10", "C11", "C12", "C14", "C15"):
+    META[_p]["assumptions"] = [a.replace("~68", "84") for a in META[_p]["assumptions"]]
+META["C11"]["assumptions"] = [a for a in META["C11"]["assumptions"] if not a.startswith("a (document, value) whose fault-free controls")] + ["no fault-free read is needed: only serialization must succeed"]
+META["C12"]["assumptions"] = [a for a in META["C12"]["assumptions"] if not a.startswith("a (document, value) whose fault-free controls")] + ["no fault-free read is needed: only serialization must succeed"]
+META["C14"]["assumptions"] = [a.replace("(serialize, full-copy read, ε-copy read at an aligned address, agreement of the two)", "(serialize, unfragmented full-copy read)") for a in META["C14"]["assumptions"]]
+META["C08"]["assumptions"] = [a for a in META["C08"]["assumptions"] if not a.startswith("region rules")] + [
+    "region rules (narrowed to the statement): region aligned to MemoryAlignment and at least as long as the file, zero tail for the copying loaders, borrowed parts inside the region; madvise advice and a longer mmap are NOTEs, not violations",
+    "reference of every loader (load_full included) = ε-copy deserialization of the file bytes"]
+META["C09"]["assumptions"] = META["C09"]["assumptions"] + [
+    "a leak is reported only if a second execution of the same case leaks again; a munmap that trims a loader mapping is tracked, not flagged; a second munmap of exactly a released loader range is a double release",
+    "the tracker protects only blocks that were not made inside a library call (source, sink, harness) against being freed during a library call"]
